@@ -35,13 +35,17 @@ Blank == [sp |-> 0, t |-> <<"blank">>]
 
 \* ---- writers
 IsDir(h) == h \in 1..Len(nodes) /\ nodes[h].k = "dir"
-Writers == {0} \cup {h \in 1..Len(nodes) : nodes[h].k = "dir"}
-Indent(h) == IF h = 0 THEN 0 ELSE nodes[h].ind + 1       \* Directive.__init__: indent = parent's indent + 1
+Writers == {0} \cup {h \in 1..Len(nodes) : nodes[h].k \in {"dir", "sect"}}
+\* Directive.__init__: indent = parent's indent + 1; section(): a fresh RSTWriter, indent 0 whatever the parent's
+Indent(h) == IF h = 0 THEN 0 ELSE IF nodes[h].k = "sect" THEN 0 ELSE nodes[h].ind + 1
+Level(h) == IF h = 0 THEN 0 ELSE IF nodes[h].k = "sect" THEN nodes[h].level ELSE 0
 Children(h) == {n \in 1..Len(nodes) : nodes[n].par = h}
 \* structural depth: number of directive ancestors (detached writers count from themselves)
-Depth(h) == LET D[x \in Writers] == IF x = 0 THEN 0 ELSE IF nodes[x].par = -1 THEN 1 ELSE 1 + D[nodes[x].par] IN D[h]
+Depth(h) == LET D[x \in Writers] == IF x = 0 THEN 0 ELSE IF nodes[x].par = -1 THEN 1 ELSE (IF nodes[x].k = "dir" THEN 1 ELSE 0) + D[nodes[x].par] IN D[h]
 \* is writer h still part of the root document?
 Attached(h) == LET A[x \in Writers] == IF x = 0 THEN TRUE ELSE IF nodes[x].par = -1 THEN FALSE ELSE A[nodes[x].par] IN A[h]
+\* a section() inside a directive restarts at indent 0: what lies below a section is outside C20's statement
+BelowSection(h) == LET B[x \in Writers] == IF x = 0 THEN FALSE ELSE IF nodes[x].k = "sect" THEN TRUE ELSE IF nodes[x].par = -1 THEN FALSE ELSE B[nodes[x].par] IN B[h]
 
 SeqOfSet(S) ==  \* ascending order
   LET F[T \in SUBSET S] == IF T = {} THEN <<>> ELSE LET m == CHOOSE x \in T : \A y \in T : x <= y IN <<m>> \o F[T \ {m}] IN F[S]
@@ -56,6 +60,8 @@ FieldLines(n) == <<Blank, [sp |-> 3 * nodes[n].ind, t |-> <<"field", n>>]>>
 ListLines(n) == <<Blank>> \o [j \in 1..Len(nodes[n].items) |-> [sp |-> 3 * nodes[n].ind, t |-> <<nodes[n].k, n, j, nodes[n].items[j]>>]] \o <<Blank>>
 \* Directive.to_text: heading ("\n{indent-1}.. name:: args"), options, blank line iff content, content.
 \* Lines of element n as it appears inside its parent: str(element) + "\n"
+\* DocTest: "\n{indent}>>> {test_line}\n{expected_output}\n" - the expected output is not indented
+DoctestLines(n) == <<Blank, [sp |-> 3 * nodes[n].ind, t |-> <<"doctest", n>>], [sp |-> 0, t |-> <<"expected", n>>], Blank>>
 RECURSIVE ElemLines(_)
 DirLines(n) ==
   LET kids == SeqOfSet(Children(n))
@@ -68,11 +74,18 @@ ElemLines(n) ==
     [] nodes[n].k = "field" -> FieldLines(n)
     [] nodes[n].k \in {"blist", "elist"} -> ListLines(n)
     [] nodes[n].k = "dir" -> DirLines(n) \o <<Blank>>     \* to_text ends with "\n", the parent adds another
+    [] nodes[n].k = "doctest" -> DoctestLines(n)
+    [] nodes[n].k = "sect" ->    \* a nested RSTWriter: its own heading in the character of its level, then its elements
+         LET kids == SeqOfSet(Children(n)) IN
+         <<Blank, [sp |-> 0, t |-> <<"sover", n, nodes[n].level, nodes[n].title.len>>], [sp |-> 0, t |-> <<"stitle", n, nodes[n].title.id>>],
+           [sp |-> 0, t |-> <<"sover", n, nodes[n].level, nodes[n].title.len>>]>>
+         \o Flatten([j \in 1..Len(kids) |-> ElemLines(kids[j])]) \o <<Blank>>
 HeadingLines == <<Blank, [sp |-> 0, t |-> <<"over", title.len>>], [sp |-> 0, t |-> <<"title", title.id>>],
                   [sp |-> 0, t |-> <<"over", title.len>>]>>
 \* RSTWriter.to_text of writer h; the final "\n" of the string is represented by the line list ending
 Lines(h) ==
   IF h = 0 THEN LET kids == SeqOfSet(Children(0)) IN HeadingLines \o Flatten([j \in 1..Len(kids) |-> ElemLines(kids[j])])
+  ELSE IF nodes[h].k = "sect" THEN SubSeq(ElemLines(h), 1, Len(ElemLines(h)) - 1)
   ELSE DirLines(h)
 
 \* ---- API actions
@@ -89,6 +102,12 @@ Field(h) == /\ CanAdd /\ "field" \in OpKinds
 List(h, kind, items) == /\ CanAdd /\ kind \in OpKinds
                         /\ NewNode([k |-> kind, par |-> h, ind |-> Indent(h), items |-> items])
                         /\ Op([op |-> kind, h |-> h, items |-> items]) /\ UNCHANGED <<title, outs, nread>>
+Doctest(h) == /\ CanAdd /\ "doctest" \in OpKinds
+              /\ NewNode([k |-> "doctest", par |-> h, ind |-> Indent(h)])
+              /\ Op([op |-> "doctest", h |-> h]) /\ UNCHANGED <<title, outs, nread>>
+Section(h, t) == /\ CanAdd /\ "section" \in OpKinds /\ Level(h) < 2
+                 /\ NewNode([k |-> "sect", par |-> h, ind |-> Indent(h), level |-> Level(h) + 1, title |-> t])
+                 /\ Op([op |-> "section", h |-> h, t |-> t]) /\ UNCHANGED <<title, outs, nread>>
 NewDirective(h) == /\ CanAdd /\ "directive" \in OpKinds /\ Depth(h) < MaxDepth
                    /\ NewNode([k |-> "dir", par |-> h, ind |-> Indent(h), opts |-> <<>>])
                    /\ Op([op |-> "directive", h |-> h]) /\ UNCHANGED <<title, outs, nread>>
@@ -113,11 +132,13 @@ AddText == \E h \in Writers, txt \in TextMenu : Text(h, txt)
 AddField == \E h \in Writers : Field(h)
 AddList == \E h \in Writers, kind \in {"blist", "elist"}, items \in ItemMenu : List(h, kind, items)
 AddDirective == \E h \in Writers : NewDirective(h)
+AddDoctest == \E h \in Writers : Doctest(h)
+AddSection == \E h \in Writers, t \in TitleMenu : Section(h, t)
 AddOption == \E h \in Writers : Option(h)
 ChangeTitle == \E t \in TitleMenu : SetTitle(t)
 ClearWriter == \E h \in Writers : Clear(h)
 Serialise == \E h \in Writers : ToText(h)
-Next == AddText \/ AddField \/ AddList \/ AddDirective \/ AddOption \/ ChangeTitle \/ ClearWriter \/ Serialise
+Next == AddText \/ AddField \/ AddList \/ AddDirective \/ AddDoctest \/ AddSection \/ AddOption \/ ChangeTitle \/ ClearWriter \/ Serialise
 Spec == Init /\ [][Next]_vars
 
 \* ---- C20
@@ -129,7 +150,7 @@ HeadingFramed == LET L == Lines(0) IN L[1] = Blank /\ L[2].t = <<"over", title.l
 \* a directive heading is an element of its parent
 AttachedWriters == {h \in Writers : Attached(h)}
 IndentExact ==
-  \A n \in 1..Len(nodes) : (nodes[n].par # -1 /\ Attached(nodes[n].par)) =>
+  \A n \in 1..Len(nodes) : (nodes[n].par # -1 /\ Attached(nodes[n].par) /\ ~BelowSection(nodes[n].par) /\ nodes[n].k \notin {"sect", "doctest"}) =>
      LET d == Depth(nodes[n].par) IN
      /\ nodes[n].k = "dir" => DirLines(n)[2].sp = 3 * d /\ \A j \in 1..Len(nodes[n].opts) : DirLines(n)[2 + j].sp = 3 * (d + 1)
      /\ nodes[n].k # "dir" => \A j \in 1..Len(ElemLines(n)) : ElemLines(n)[j] = Blank \/ ElemLines(n)[j].sp = 3 * d
@@ -153,7 +174,7 @@ ClearKeepsHeading ==
                        ELSE <<Blank, [sp |-> 3 * nodes[LastOp.h].ind, t |-> <<"dirhead", LastOp.h>>]>>
                             \o [j \in 1..Len(nodes[LastOp.h].opts) |-> [sp |-> 3 * (nodes[LastOp.h].ind + 1), t |-> <<"option", LastOp.h, j>>]]
 \* the writer's indent attribute is the structural depth (what makes IndentExact true)
-IndentIsDepth == \A h \in AttachedWriters : Indent(h) = Depth(h)
+IndentIsDepth == \A h \in AttachedWriters : ~BelowSection(h) => Indent(h) = Depth(h)
 
 \* ---- behaviours for replay: every history that ends with a to_text call
 Emit == LastOp.op = "to_text" => PrintT(<<"BEH", ToJson([hist |-> hist, outs |-> outs])>>)
